@@ -118,6 +118,23 @@ type c15Trace struct {
 	midEpochJoin   bool
 	sharesExceeded bool
 	blockedOwner   bool
+	servedTwice    bool
+	// per stream: distributed coins at the start of its current epoch, the most one epoch may hand out
+	// (sum of the real CalculateGaugeRewards over its records), and whether its records were replaced
+	epochBase   map[uint64]sdk.Coins
+	epochMax    map[uint64]sdk.Coins
+	epochExempt map[uint64]bool
+}
+
+// cause names why a stream could hand out more than it holds, from facts observed earlier in the trace
+func (t *c15Trace) cause() string {
+	switch {
+	case t.servedTwice:
+		return "pair-served-twice"
+	case t.sharesExceeded:
+		return "share-rounding"
+	}
+	return "unexplained"
 }
 
 func c15Time(f *Fix) int64 { return int64(f.Time.Sub(BaseTime)/time.Second) + c15T0 }
@@ -365,7 +382,8 @@ func c15EpochName(e int) string {
 // trace driver: executes lines on primary + shadow, emits protocol lines, runs the monitors
 
 func c15Start(r *Run, maxIter uint64) *c15Trace {
-	t := &c15Trace{r: r, w: c15NewWorld(r.T, maxIter), sh: c15NewWorld(r.T, 1<<62), shadowOK: true}
+	t := &c15Trace{r: r, w: c15NewWorld(r.T, maxIter), sh: c15NewWorld(r.T, 1<<62), shadowOK: true,
+		epochBase: map[uint64]sdk.Coins{}, epochMax: map[uint64]sdk.Coins{}, epochExempt: map[uint64]bool{}}
 	line := fmt.Sprintf("reset %d %d %d %d", c15Time(t.w.f), maxIter, c15ND, c15NA)
 	t.lines = append(t.lines, line)
 	r.Emit(line, "ok | "+t.w.obs())
@@ -485,9 +503,13 @@ func (t *c15Trace) onHalt(op, class string, err error) {
 	case t.blockedOwner && strings.Contains(msg, "not allowed to receive funds"):
 		// F4 (C11's finding): a rollapp owned by a blocked module account; deliberately generated branch
 		r.Hit("halt/blocked-rollapp-owner")
-	case op == "end" && strings.Contains(msg, "insufficient funds") && t.sharesExceeded:
-		r.Violate("C15/stream_epoch_bounded/endblock-fails-epoch-shares-exceed-streamer-balance",
-			"streamer EndBlock failed (block processing stops): the gauges' shares of a fully funded stream add up to more than the stream holds: "+c15Short(msg), t.replay()...)
+	case op == "end" && strings.Contains(msg, "insufficient funds") && (t.sharesExceeded || t.servedTwice || t.everUnsorted):
+		c := t.cause()
+		if c == "unexplained" { // the failing block itself is the second visit
+			c = "pair-served-twice"
+		}
+		r.Violate("C15/block/endblock-fails-streamer-cannot-pay/"+c,
+			"streamer EndBlock failed (block processing stops): streams try to hand out more than the streamer account holds: "+c15Short(msg), t.replay()...)
 	default:
 		r.Violate("C15/block/"+op+"-fails", "block processing failed: "+c15Short(msg), t.replay()...)
 	}
@@ -508,6 +530,47 @@ func (t *c15Trace) monitors(fl []string, class string, pre c15Snap, preLocks []l
 	ik, sk, bk := f.App.IncentivesKeeper, f.App.StreamerKeeper, f.App.BankKeeper
 	op := fl[0]
 	post := t.w.snap()
+
+	// exactly once per epoch: within one epoch a stream hands out at most the sum of its records' shares
+	{
+		sharesOf := func(s streamertypes.Stream) sdk.Coins {
+			sum := sdk.NewCoins()
+			if len(s.EpochCoins) == 0 || s.DistributeTo.TotalWeight.IsZero() {
+				return sum
+			}
+			for _, rec := range s.DistributeTo.Records {
+				if c, err := sk.CalculateGaugeRewards(f.Ctx, s.EpochCoins, rec, s.DistributeTo.TotalWeight); err == nil {
+					sum = sum.Add(c...)
+				}
+			}
+			return sum
+		}
+		for _, s := range sk.GetStreams(f.Ctx) {
+			base, seen := t.epochBase[s.Id]
+			if !seen {
+				t.epochBase[s.Id], t.epochMax[s.Id] = s.DistributedCoins, sharesOf(s)
+				continue
+			}
+			if op == "replace" && class == "ok" && fl[1] == strconv.FormatUint(s.Id, 10) {
+				t.epochExempt[s.Id] = true
+			}
+			if !t.epochExempt[s.Id] && s.DistributedCoins.IsAllGTE(base) {
+				if inc := s.DistributedCoins.Sub(base...); !inc.IsAllLTE(t.epochMax[s.Id]) {
+					t.servedTwice = true
+					r.Hit("pair-served-twice")
+					what := "other"
+					if t.everUnsorted {
+						what = "unsorted-active-streams"
+					}
+					r.Violate("C15/paging_independent/pair-served-twice/"+what, fmt.Sprintf("within one epoch stream %d handed out %s, its records' shares add up to %s only: some (stream, gauge) pair was served more than once",
+						s.Id, inc, t.epochMax[s.Id]), t.replay()...)
+				}
+			}
+			if op == "begin" && post.epochNo[s.DistrEpochIdentifier] != pre.epochNo[s.DistrEpochIdentifier] {
+				t.epochBase[s.Id], t.epochMax[s.Id], t.epochExempt[s.Id] = s.DistributedCoins, sharesOf(s), false
+			}
+		}
+	}
 
 	// gauge_bounded
 	owedG := sdk.NewCoins()
@@ -551,13 +614,13 @@ func (t *c15Trace) monitors(fl []string, class string, pre c15Snap, preLocks []l
 	for _, s := range sk.GetStreams(f.Ctx) {
 		if !s.DistributedCoins.IsAllLTE(s.Coins) {
 			r.Hit("f8-stream-overdistributed")
-			r.Violate("C15/stream_bounded/distributed-exceeds-coins", fmt.Sprintf("stream %d distributed %s > coins %s", s.Id, s.DistributedCoins, s.Coins), t.replay()...)
+			r.Violate("C15/stream_bounded/distributed-exceeds-coins/"+t.cause(), fmt.Sprintf("stream %d distributed %s > coins %s", s.Id, s.DistributedCoins, s.Coins), t.replay()...)
 		}
 	}
 	sbal := bk.GetAllBalances(f.Ctx, c15Addr(100))
 	for _, d := range c15Reward {
 		if sbal.AmountOf(d).LT(owed[d]) {
-			r.Violate("C15/module_solvent/streamer-balance-below-undistributed", fmt.Sprintf("streamer holds %s%s, unfinished streams are owed %s%s", sbal.AmountOf(d), d, owed[d], d), t.replay()...)
+			r.Violate("C15/module_solvent/streamer-balance-below-undistributed/"+t.cause(), fmt.Sprintf("streamer holds %s%s, unfinished streams are owed %s%s", sbal.AmountOf(d), d, owed[d], d), t.replay()...)
 		}
 	}
 
@@ -583,23 +646,27 @@ func (t *c15Trace) monitors(fl []string, class string, pre c15Snap, preLocks []l
 	}
 
 	// registered invariants of x/streamer as extra oracles (x/incentives registers none)
-	func() {
-		defer func() {
-			if e := recover(); e != nil {
-				r.Hit("invariant/streamer-panics")
-				r.Violate("C15/invariant/streamer-invariant-panics", fmt.Sprintf("evaluating the registered streamer invariants panics: %v", e), t.replay()...)
+	for _, iv := range []struct {
+		name string
+		fn   sdk.Invariant
+	}{{"streams-count", streamerkeeper.StreamsCountInvariant(sk)}, {"last-stream-id", streamerkeeper.LastStreamIdInvariant(sk)},
+		{"streamer-balance", streamerkeeper.StreamerBalanceInvariant(sk)}, {"streams", streamerkeeper.StreamsInvariant(sk)}} {
+		func() {
+			defer func() {
+				if e := recover(); e != nil {
+					r.Hit("invariant/streamer-panics")
+					r.Violate("C15/invariant/streamer-invariant-panics/"+t.cause(), fmt.Sprintf("evaluating the registered invariant streamer/%s panics: %v", iv.name, e), t.replay()...)
+				}
+			}()
+			if msg, broken := iv.fn(f.Ctx); broken {
+				sig := "C15/invariant/streamer-" + iv.name
+				if iv.name == "streams" || iv.name == "streamer-balance" {
+					sig += "/" + t.cause()
+				}
+				r.Violate(sig, c15Short(msg), t.replay()...)
 			}
 		}()
-		for _, iv := range []struct {
-			name string
-			fn   sdk.Invariant
-		}{{"streams-count", streamerkeeper.StreamsCountInvariant(sk)}, {"last-stream-id", streamerkeeper.LastStreamIdInvariant(sk)},
-			{"streamer-balance", streamerkeeper.StreamerBalanceInvariant(sk)}, {"streams", streamerkeeper.StreamsInvariant(sk)}} {
-			if msg, broken := iv.fn(f.Ctx); broken {
-				r.Violate("C15/invariant/streamer-"+iv.name, c15Short(msg), t.replay()...)
-			}
-		}
-	}()
+	}
 
 	// conservation + recipients over blocks: reward coins only move streamer -> incentives -> recipients
 	if op == "begin" || op == "end" {
@@ -685,8 +752,8 @@ func (t *c15Trace) monitors(fl []string, class string, pre c15Snap, preLocks []l
 				firstTick = i
 			}
 		}
-		for id := range post.active {
-			if !pre.active[id] {
+		for id := range pre.upcoming {
+			if !post.upcoming[id] { // activated in this block (it may already have finished again)
 				s, _ := sk.GetStreamByID(f.Ctx, id)
 				if s != nil && firstTick >= 0 && c15Epochs[firstTick] != s.DistrEpochIdentifier {
 					t.midEpochJoin = true
@@ -1168,6 +1235,18 @@ var c15Witnesses = map[string][]string{
 		"fund 100 9000,0",
 		"mkstream 3000,0 1:1,2:1 NOW 1 1", "mkstream 3000,0 1:1,2:1 NOW 1 3", "mkstream 3000,0 1:1,2:1 NOW 1 3",
 		"begin 3601", "end", "begin 1200", "end", "begin 1200", "end", "begin 1201", "end", "begin 1200", "end", "begin 1200", "end", "begin 1201", "end",
+	},
+	// same unsorted list [3,2] with limit 3: the saved pointer (stream 2, gauge 2) bisects to stream 3, whose
+	// second pair and stream 2's first pair are served a second time in the same epoch
+	"unsorted-pair-served-twice": {
+		"maxiter 3",
+		"begin 1", "end",
+		"mkgauge 0 1 0 1 0,0 NOW 1", "mkgauge 0 1 0 1 0,0 NOW 1",
+		"lock 1 0 100 3600",
+		"fund 100 9000,0",
+		"mkstream 3000,0 1:1,2:1 NOW 1 1", "mkstream 3000,0 1:1,2:1 NOW 1 3", "mkstream 3000,0 1:1,2:1 NOW 1 3",
+		"begin 3601", "end", "begin 1200", "end", "begin 1200", "end", "begin 1201", "end", "begin 1200", "end", "begin 1200", "end", "begin 1201", "end",
+		"begin 1200", "end", "begin 1200", "end", "begin 1201", "end", "begin 1200", "end",
 	},
 	// a stream that becomes active at another identifier's epoch start is served in its first (partial)
 	// epoch only if the pointer of its own epoch has not yet reached the end
